@@ -279,7 +279,7 @@ def main():
         return 2
     eng = run.load([(b['mir'], b['src'])], [(os.path.join(b['src'], 'src'), '')], {})
     out = tempfile.mkdtemp(prefix='icverif-run-', dir='/var/tmp')
-    budget = 1500 if tier == 'quick' else 3300
+    budget = 1500 if tier == 'quick' else 10800
     try:
         res = run.explore(eng, names, out, jobs=15, deadline=time.time() + budget)
     finally:
